@@ -51,7 +51,7 @@ Section MapRef.
     induction 1; simpl; auto.
     - destruct x as [k v]. intros [A B]. split; auto. eapply nomatch_perm; eauto.
     - destruct x as [k v], y as [k' v']. intros [A [B C]]. repeat split; auto.
-      + intros k2 v2 [E|I]; [inversion E; subst; apply eqv_sym_false; apply (A k' v'); simpl; auto | eauto].
+      + intros k2 v2 [E|I]; [inversion E; subst; apply eqv_sym_false; eapply A; simpl; eauto | eauto].
       + intros k2 v2 I. apply (A k2 v2). simpl; auto.
   Qed.
 
@@ -74,7 +74,7 @@ Section MapRef.
   Qed.
   Lemma a_at_none l k : a_at l k = None -> nomatch l k.
   Proof.
-    induction l as [|[k' v'] l IH]; simpl; intros H k2 v2 I; [tauto|]. destruct (eqv k k') eqn:E; [discriminate|].
+    induction l as [|[k' v'] l IH]; simpl; intros H k2 v2 I; [destruct I1|]. destruct (eqv k k') eqn:E; [discriminate|].
     destruct I as [I|I]; [inversion I; subst; auto | eapply IH; eauto].
   Qed.
 
